@@ -203,6 +203,51 @@ def random_string(rng):
     return ''.join(out)
 
 
+def threaded_phase(rec):
+    """decode/encode are plain functions that request threads call concurrently: the same inputs must give the
+    reference result when several threads decode different long strings at once (tiny switch interval)."""
+    import sys
+    import threading
+    rng = rec.rng
+    old = sys.getswitchinterval()
+    sys.setswitchinterval(1e-6)
+    try:
+        for _ in range(6 if rec.tier == 'quick' else 40):
+            n = 6
+            inputs = []
+            for i in range(n):
+                raw = ''.join(rng.choice(['a', 'é', '€', ' ', '/', '+', '%', chr(65 + i)]) for _ in range(rng.randint(12, 60)))
+                inputs.append(M.ref_encode(raw, True) + rng.choice(['', '%', '%zz', '%4']))
+            wants = [(M.ref_decode(x, True), M.ref_encode(x, True)) for x in inputs]
+            bad = []
+            barrier = threading.Barrier(n)
+
+            def work(i):
+                barrier.wait()
+                for _ in range(40):
+                    try:
+                        got = (uri.decode(inputs[i]), uri.encode_value(inputs[i]))
+                    except Exception as ex:  # noqa
+                        got = ('raised', repr(ex))
+                    if got != wants[i]:
+                        bad.append((i, got))
+                        return
+            ths = [threading.Thread(target=work, args=(i,), daemon=True) for i in range(n)]
+            for t in ths:
+                t.start()
+            for t in ths:
+                t.join(60)
+            rec.count('mon.threaded_decode', n * 40)
+            rec.case(('threads', tuple(inputs)))
+            if bad:
+                i, got = bad[0]
+                rec.violation('concurrent-decode-mismatch', {'s': inputs[i], 'got': got, 'want': wants[i],
+                                                            'other_inputs': inputs[:3]})
+                break
+    finally:
+        sys.setswitchinterval(old)
+
+
 def run(rec):
     rec.rule = ('all strings over a 20-symbol alphabet up to length L (exhaustive, sharded by index) plus random '
                 'strings up to 8 KB, each run through decode(x2), 4 encoders and compared with a reference codec; '
@@ -227,6 +272,24 @@ def run(rec):
             rec.case(s if nontrivial(s) else None)
             if idx % 9973 == 0:
                 rec.sample({'input': s, 'decode': uri.decode(s), 'encode_value': uri.encode_value(s)})
+    # every ASCII code point alone and next to an unreserved / reserved neighbour (pure-ASCII inputs)
+    if rec.shard == 0:
+        for cp in range(128):
+            c = chr(cp)
+            for t in (c, 'a' + c, c + 'a', c + c, '/' + c + '?', 'a' * 9 + c):
+                check_string(rec, t)
+                rec.case(t if nontrivial(t) else None)
+                rec.count('ascii_sweep')
+        for host, default, want in (('', 80, ('', 80)), ('', None, ('', None)), (':8080', None, ('', 8080)),
+                                    ('[::1]', 443, ('::1', 443)), ('[::1]:0', 80, ('::1', 0)), ('a:0', 80, ('a', 0))):
+            try:
+                got = uri.parse_host(host, default)
+            except Exception as ex:  # noqa
+                rec.violation('parse_host-raised', {'host': host, 'default': default, 'exc': repr(ex)})
+                continue
+            rec.count('mon.parse_host')
+            if tuple(got) != want:
+                rec.violation('parse_host-mismatch', {'host': host, 'default': default, 'got': got, 'want': want})
     rec.exhaustive = True
     if rec.shard == 0:
         rec.note('exhaustive over all strings of length <= %d over %d symbols' % (maxlen, len(ALPHABET)))
@@ -252,7 +315,9 @@ def run(rec):
         for _ in range(20):
             check_authority(rec, rng)
             check_unquote(rec, rng)
+    threaded_phase(rec)
     rec.floor('mon.decode', 1000)
+    rec.floor('mon.threaded_decode', 200)
     rec.floor('random.joiner_path', 10)
     rec.floor('random.short_path', 10)
     rec.floor('chk.fully_escaped', 10)
